@@ -67,7 +67,7 @@ def _case(i):
             feat.add('many_stacks')
         res['feat'] = sorted(feat)
         res['steps'] = m.steps
-        base = P.run_interp(C.HYEONG, path, 0, sb)
+        base = P.run_interp(C.HYEONG, path, 0, sb, hint=(re_, rend))
         d0 = P.compare_to_ref(base, ro, re_, rend, lenient_encerr=False)
         if d0 is not None:
             res['hist']['O0_differs_from_reference'] = 1
@@ -76,11 +76,11 @@ def _case(i):
             res['status'] = 'inconclusive'
             return res
         for level in (1, 2):
-            obs = P.run_interp(C.HYEONG, path, level, sb)
+            obs = P.run_interp(C.HYEONG, path, level, sb, hint=(re_, rend))
             if obs.kind == 'cpu':
                 # the model predicts termination within the step budget: re-run once alone before judging
-                obs = P.run_interp(C.HYEONG, path, level, sb, cpu=30)
-            d = P.compare_runs(base, obs, lenient_encerr=True)
+                obs = P.run_interp(C.HYEONG, path, level, sb, cpu=30, hint=(re_, rend))
+            d = P.compare_runs(base, obs, lenient_encerr=True, ref_err=re_)
             if d is None:
                 continue
             if d.startswith('INCONCLUSIVE'):
@@ -117,7 +117,7 @@ def _nonterm(res, path, sb, text, stdin, ro, re_):
         o = outs[level]
         if o.kind == 'crash':
             continue   # crash handling belongs to C13; here only outputs are judged
-        for a, b, what in ((base.out, o.out, 'stdout'), (base.err.split('[error]')[0], o.err.split('[error]')[0], 'stderr')):
+        for a, b, what in ((base.out, o.out, 'stdout'), (P.split_diag(base.err, re_)[0], P.split_diag(o.err, re_)[0], 'stderr')):
             n = min(len(a), len(b))
             compared += n
             if a[:n] != b[:n]:
